@@ -599,3 +599,25 @@ pub mod channel_condition {
         }
     }
 }
+
+pub mod time {
+    /// `ntex_util::time::Seconds`
+    #[derive(Clone, Copy, Debug, PartialEq, Eq, PartialOrd, Ord, Hash)]
+    pub struct Seconds(pub u16);
+    impl Seconds {
+        pub const ZERO: Seconds = Seconds(0);
+        pub const ONE: Seconds = Seconds(1);
+        pub const fn new(secs: u16) -> Seconds {
+            Seconds(secs)
+        }
+        pub const fn is_zero(self) -> bool {
+            self.0 == 0
+        }
+        pub const fn non_zero(self) -> bool {
+            self.0 != 0
+        }
+        pub const fn seconds(self) -> u64 {
+            self.0 as u64
+        }
+    }
+}
